@@ -145,7 +145,10 @@ def strat_bytes(tier):
         "bytes": st.one_of(st.binary(min_size=14, max_size=40),
                            st.binary(min_size=14, max_size=400)).map(b64),
         "n_args": st.integers(0, 4),
-        "flag": st.sampled_from([None, None, 0x87, 0x07])})
+        "flag": st.sampled_from([None, None, 0x87, 0x07]),
+        # what a socket hands over is not always `bytes`
+        "buffer": st.sampled_from(["bytes", "bytes", "bytearray",
+                                   "memoryview"])})
 
 
 def check_bytes(case):
@@ -155,8 +158,10 @@ def check_bytes(case):
         b[2] = case["flag"]
     b = bytes(b)
     k = case["n_args"]
+    raw = {"bytes": bytes, "bytearray": bytearray,
+           "memoryview": memoryview}[case.get("buffer", "bytes")](b)
     with sut("SDPPacket.from_bytestring"):
-        q = packets.SDPPacket.from_bytestring(b)
+        q = packets.SDPPacket.from_bytestring(raw)
     _same(_packet_fields(q, ref.SDP_FIELDS), ref.decode_sdp(b),
           "SDP decode of arbitrary bytes", {"bytes": b.hex()})
     with sut("SDPPacket.bytestring"):
@@ -165,7 +170,7 @@ def check_bytes(case):
     require(again == norm, "SDP re-encoding of a decoded datagram differs",
             {"bytes": b.hex(), "again": again.hex()})
     with sut("SCPPacket.from_bytestring"):
-        q = packets.SCPPacket.from_bytestring(b, n_args=k)
+        q = packets.SCPPacket.from_bytestring(raw, n_args=k)
     want = ref.decode_scp(b, k)
     _same(_packet_fields(q, ref.SCP_FIELDS), want,
           "SCP decode of arbitrary bytes", {"bytes": b.hex(), "n_args": k})
